@@ -26,7 +26,12 @@ def load_known() -> dict:
 def match_finding(sig: dict, finding: dict) -> bool:
     for k, v in finding["match"].items():
         sv = sig.get(k)
-        if isinstance(v, list) and not isinstance(sv, list):
+        if isinstance(v, dict) and "components_in" in v:
+            # a compound class 'a+b+c' (no single component suffices) made only of individually listed classes
+            parts = sv.split("+") if isinstance(sv, str) else []
+            if len(parts) < v.get("min_components", 2) or any(p not in v["components_in"] for p in parts):
+                return False
+        elif isinstance(v, list) and not isinstance(sv, list):
             if sv not in v:
                 return False
         elif sv != v:
@@ -162,8 +167,9 @@ def main(argv: list[str] | None = None) -> int:
     if problems:
         print(f"HARNESS-ERROR property={pid} evidence invalid: {problems}", flush=True)
         return 2
-    os.makedirs(os.path.join(VERIF_DIR, "evidence"), exist_ok=True)
-    evp = os.path.join(VERIF_DIR, "evidence", f"{pid}.json")
+    evdir = os.environ.get("VERIF_EVIDENCE_DIR") or os.path.join(VERIF_DIR, "evidence")  # override: sensitivity runs only
+    os.makedirs(evdir, exist_ok=True)
+    evp = os.path.join(evdir, f"{pid}.json")
     tmp = evp + ".tmp"
     with open(tmp, "w") as f:
         json.dump(evidence, f, indent=1, sort_keys=True, default=jdefault)
